@@ -36,6 +36,31 @@ Theorem C19_one_swap_preserves_margins : forall m s0 s1 p0 p1,
      get (swap4 m s0 s1 p0 p1) r c = get m r c).
 Proof. exact swap4_preserves_margins. Qed.
 Print Assumptions C19_one_swap_preserves_margins.
+(* The retry loop.  The property is stated for matrices that admit at least one checkerboard swap; that precondition is
+   an invariant of the run (the swap just made can be undone on the same rows and columns) ... *)
+From PV Require Import Proofs.IncidenceProgress.
+Theorem C19_swappable_matrices_stay_swappable : forall C k m m', rect m C -> swappable C m -> reach C k m m' -> swappable C m'.
+Proof. exact reach_swappable. Qed.
+Print Assumptions C19_swappable_matrices_stay_swappable.
+
+(* ... under it every attempt of the retry loop can succeed, and perform ANY prescribed checkerboard swap: there are four
+   answers (two for the row pair, one for each column) on which the attempt returns exactly swap4 m s0 s1 p0 p1.  Each attempt
+   therefore succeeds with probability >= 1/(n (n-1) C^2) under an ideal generator, so the loop ends almost surely
+   (termination for every answer sequence does not hold and is not claimed: the model uses the tape length as fuel) ... *)
+Theorem C19_every_attempt_can_succeed : forall C m s0 s1 p0 p1, rect m C ->
+  (s0 < length m)%nat -> (s1 < length m)%nat -> (p0 < C)%nat -> (p1 < C)%nat ->
+  is_checkerboard m s0 s1 p0 p1 = true ->
+  exists a b i0 i1, forall fuel rest,
+    attempts m (S fuel) (a :: b :: i0 :: i1 :: rest) = Ok (swap4 m s0 s1 p0 p1, rest).
+Proof. exact attempt_can_succeed. Qed.
+Print Assumptions C19_every_attempt_can_succeed.
+
+(* ... and without any checkerboard no attempt ever succeeds (why the property excludes such matrices) *)
+Theorem C19_no_checkerboard_no_result : forall C m, rect m C -> ~ swappable C m ->
+  forall fuel t m' t', attempts m fuel t <> Ok (m', t').
+Proof. exact no_checkerboard_no_result. Qed.
+Print Assumptions C19_no_checkerboard_no_result.
+
 (* non-vacuity: a 2x3 matrix, two swaps, a concrete answer tape *)
 Example C19_nonvacuous :
   exists m' t', permute_incidence_fixed_sums [[1;0;1];[0;1;0]] true 2 [0;0;1;0;1;0;0;0]%nat = Ok (m', t')
